@@ -99,10 +99,10 @@ Ltac inv_step H :=
   repeat match goal with
   | |- context [prev_read ?q ?d] =>
       let E := fresh "PE" in let g := fresh "pg" in
-      destruct (prev_read_cases q d) as [E|E]; [rewrite E in * | set (g := prev_read q d) in *; clearbody g]
+      destruct (prev_read_cases q d) as [E|E]; [rewrite E in *; clear E | set (g := prev_read q d) in *; clearbody g]
   | H : context [prev_read ?q ?d] |- _ =>
       let E := fresh "PE" in let g := fresh "pg" in
-      destruct (prev_read_cases q d) as [E|E]; [rewrite E in * | set (g := prev_read q d) in *; clearbody g]
+      destruct (prev_read_cases q d) as [E|E]; [rewrite E in *; clear E | set (g := prev_read q d) in *; clearbody g]
   end.
 
 Ltac split_upd :=
